@@ -105,8 +105,13 @@ inductive AVal where
 structure Summary where
   /-- parameters whose *own* object may be written (no other pre-existing object may be) -/
   writes : List Nat
-  /-- `true`: every value this function stores anywhere is a scalar or `closed` -/
+  /-- `true`: the function stores only scalars and references to `closed` new objects into the objects
+  of its parameters, and nothing but such values anywhere once one of those new objects has been made
+  reachable from a parameter (before that it may fill its own temporaries with anything) -/
   keeps : Bool
+  /-- (meaningful with `keeps`) `true`: the function may store a reference to a new object into the object of
+  a parameter; `false`: it stores only scalars there -/
+  exposes : Bool
   /-- what a returned value may be (relative to the callee's activation) -/
   ret : AVal
   deriving Repr, DecidableEq
@@ -250,22 +255,31 @@ structure AState where
   fld : AList
   /-- `true`: no execution reaches this point (after `return` / `raise`) -/
   dead : Bool
+  /-- `true`: an object that existed when the activation started may by now point to an object
+  allocated since (a reference was stored into a parameter's object) -/
+  exposed : Bool
   deriving Repr
 
 def AState.le (s1 s2 : AState) : Bool :=
-  s1.dead || (!s2.dead && AList.le s1.env s2.env && AList.le s1.fld s2.fld)
+  s1.dead || (!s2.dead && (!s1.exposed || s2.exposed) && AList.le s1.env s2.env && AList.le s1.fld s2.fld)
 def AState.join (s1 s2 : AState) : AState :=
   if s1.dead then s2 else if s2.dead then s1
-  else ⟨AList.join s1.env s2.env, AList.join s1.fld s2.fld, false⟩
-def AState.degrade (s : AState) : AState := ⟨s.env.map AVal.degrade, s.fld.map AVal.degrade, s.dead⟩
-def AState.setVar (s : AState) (x : Var) (a : AVal) : AState := ⟨s.env.set x a, s.fld, s.dead⟩
-def AState.forget (s : AState) : AState := ⟨s.env, s.fld.map (fun _ => .any), s.dead⟩
-def AState.kill (s : AState) : AState := ⟨s.env, s.fld, true⟩
+  else ⟨AList.join s1.env s2.env, AList.join s1.fld s2.fld, false, s1.exposed || s2.exposed⟩
+def AState.degrade (s : AState) : AState :=
+  ⟨s.env.map AVal.degrade, s.fld.map AVal.degrade, s.dead, s.exposed⟩
+def AState.setVar (s : AState) (x : Var) (a : AVal) : AState := ⟨s.env.set x a, s.fld, s.dead, s.exposed⟩
+def AState.forget (s : AState) : AState := ⟨s.env, s.fld.map (fun _ => .any), s.dead, s.exposed⟩
+def AState.kill (s : AState) : AState := ⟨s.env, s.fld, true, s.exposed⟩
+def AState.mark (s : AState) : AState := ⟨s.env, s.fld, s.dead, true⟩
+/-- Record that a reference to a new object is (or may be) stored into a parameter's object; a function whose
+summary promises `keeps` without `exposes` may not do that. -/
+def AState.expose (me : Summary) (s : AState) : Option AState :=
+  if me.keeps && !me.exposes then none else some s.mark
 
 /-- Effect of a permitted store through a variable of abstract value `ax` on the receiver's table. -/
 def AState.storeFld (s : AState) (ax : AVal) (sel : Sel) (ay : AVal) : AState :=
   match ax, sel with
-  | .param 0, .field f => ⟨s.env, s.fld.set f ay, s.dead⟩
+  | .param 0, .field f => ⟨s.env, s.fld.set f ay, s.dead, s.exposed⟩
   | .param _, _ => s.forget
   | _, _ => s
 
@@ -307,8 +321,15 @@ def astore (me : Summary) (x : Var) (sel : Sel) (y : Var) (s : AState) : Option 
   let ax := AList.get s.env x
   let ay := AList.get s.env y
   if writable me ax then
-    if ay.storable then some (s.storeFld ax sel ay)
-    else if me.keeps then none
+    if ay.storable then
+      -- a reference to a new object stored into a parameter's object
+      if ax.isParam && ay == .closed then (s.storeFld ax sel ay).expose me
+      else some (s.storeFld ax sel ay)
+    else if ax.isParam then
+      -- something else than a scalar / closed new object stored into a parameter's object
+      if me.keeps then none else some (s.degrade.storeFld ax sel ay).mark
+    -- … into an object of this activation: harmless as long as no such object hangs from a parameter
+    else if me.keeps && s.exposed then none
     else some (s.degrade.storeFld ax sel ay)
   else none
 
@@ -316,13 +337,18 @@ def astore (me : Summary) (x : Var) (sel : Sel) (y : Var) (s : AState) : Option 
 def acall (me cs : Summary) (x : Var) (ys : List Var) (s : AState) : Option AState :=
   let aargs : AList := ys.map (AList.get s.env)
   if cs.writes.all (fun i => decide (i < ys.length) && writable me (AList.get aargs i)) then
-    let s1 := if cs.writes.any (fun i => (AList.get aargs i).isParam) then s.forget else s
+    let touches := cs.writes.any (fun i => (AList.get aargs i).isParam)
+    let s1 := if touches then s.forget else s
     if cs.writes.isEmpty || cs.keeps then
-      some (s1.setVar x (instRet aargs cs.ret))
-    else if me.keeps then none
+      let r := s1.setVar x (instRet aargs cs.ret)
+      if touches && cs.exposes then r.expose me else some r
     else
+      -- the callee may store anything into the objects it writes
       let s2 := s1.degrade
-      some (s2.setVar x (instRet (ys.map (AList.get s2.env)) cs.ret))
+      let r := s2.setVar x (instRet (ys.map (AList.get s2.env)) cs.ret)
+      if touches then (if me.keeps then none else some r.mark)
+      else if me.keeps && s.exposed then none
+      else some r
   else none
 
 /-- Abstract execution.  `none` = the function is rejected. -/
@@ -352,7 +378,7 @@ def aexec (sums : List Summary) (me : Summary) : Stmt → AState → Option ASta
 
 def entryState (nfields : Nat) (fd : FunDecl) : AState :=
   ⟨(List.range fd.nparams).map AVal.param ++ List.replicate (fd.nvars - fd.nparams) .scal,
-   List.replicate nfields .any, false⟩
+   List.replicate nfields .any, false, false⟩
 
 /-- What the property demands of a function of each kind. -/
 def specOk (fd : FunDecl) : Bool :=
